@@ -476,7 +476,7 @@ def maybe_replace_with_fstring(
     else:
         return None
     # the linter should have given an error in this case
-    if len(substitutions) != len(fs.specifiers) != len(fs.raw_pieces) - 1:
+    if not (len(substitutions) == len(fs.specifiers) == len(fs.raw_pieces) - 1):
         return None
     parts = []
     for raw_piece, substitution in zip(fs.raw_pieces, substitutions):
